@@ -597,7 +597,15 @@ def enum_job(job):
         a, b = Signal(Fl, name="a"), Signal(Fl, name="b")
         m = Module()
         outs = {}
-        for nm, expr in (("or", a | b), ("and", a & b), ("xor", a ^ b), ("inv", ~a)):
+        exprs = [("or", a | b), ("and", a & b), ("xor", a ^ b), ("inv", ~a)]
+        member_ops = {}
+        for mem in list(Fl)[:2] + list(Fl)[-1:]:          # a member on either side: the reflected methods
+            for nm, f in (("or", lambda x, y: x | y), ("and", lambda x, y: x & y), ("xor", lambda x, y: x ^ y)):
+                for side in ("l", "r"):
+                    key = f"{nm}-{side}-{mem.name}"
+                    exprs.append((key, f(mem, a) if side == "l" else f(a, mem)))
+                    member_ops[key] = (nm, mem.value)
+        for nm, expr in exprs:
             o = Signal(w, name="o_" + nm)
             m.d.comb += o.eq(expr.as_value())
             outs[nm] = o
@@ -617,6 +625,8 @@ def enum_job(job):
                 singles |= f.value
         # reference: Python's operators on the same integers (validated below against enum.Flag itself)
         want = {"or": av | bv, "and": av & bv, "xor": av ^ bv}
+        for key, (nm, mv) in member_ops.items():
+            want[key] = {"or": av | mv, "and": av & mv, "xor": av ^ mv}[nm]
         conds = [bool_term(got[k] != want[k]) for k in want if (got[k] != want[k]) is not False]
         # ~ : the table enum.Flag itself gives (modulo 2**w) on every value it accepts, the operand staying symbolic
         valid = {}
@@ -638,7 +648,7 @@ def enum_job(job):
                     assert int(getattr(pr, "value", pr)) == getattr(x, op_)(x2)
         r = dict(base, id=f"flag-ops-w{w}{'-gaps' if gaps else ''}{'' if boundary is None else '-' + boundary.name}", kind="FlagView operators", nontrivial=True,
                  program=f"Flag with members {names}, shape {w}, boundary {boundary}", symbolic="both operands",
-                 assertion="| & ^ equal the integer operators; ~ equals enum.Flag's result modulo 2**width on every value enum.Flag accepts")
+                 assertion="| & ^ equal the integer operators, also with an enumeration member as the left or the right operand; ~ equals enum.Flag's result modulo 2**width on every value enum.Flag accepts")
         if not conds:
             out.append(dict(r, status=PROVED))
             continue
